@@ -1,6 +1,7 @@
 from abc import abstractmethod
 from typing import Any, Hashable, Sequence
 
+import numpy as np
 from numpy.random import Generator
 from typing_extensions import Self
 
@@ -305,6 +306,7 @@ class BaseModelCrossSet(BaseModel):
         # Preprocess data
         X = self.preprocessor1.fit_transform(X, self.sample_dims, weights_X)
         Y = self.preprocessor2.fit_transform(Y, self.sample_dims, weights_Y)
+        self._validate_paired_samples()
         # Perform PCA
         X = self.pca1.fit_transform(X)
         Y = self.pca2.fit_transform(Y)
@@ -544,6 +546,28 @@ class BaseModelCrossSet(BaseModel):
             sample_name=self.sample_name,
             feature_name=self.feature_name,
         )
+
+    def _validate_paired_samples(self) -> None:
+        """Refuse samples that are entirely missing in one of the two fields only.
+
+        Each preprocessor drops the samples that are entirely missing in its own
+        field and the remaining samples of both fields are paired by position. If
+        the missing samples differ between the fields, the pairing (and the mean
+        removed from each field) would silently be wrong.
+        """
+        if not all(self.get_params()["check_nans"]):
+            return
+        valid1 = self.preprocessor1.sanitizer.transformers[0].is_valid_sample
+        valid2 = self.preprocessor2.sanitizer.transformers[0].is_valid_sample
+        if valid1.size != valid2.size:
+            return
+        valid1 = np.asarray(valid1.values, dtype=bool)
+        valid2 = np.asarray(valid2.values, dtype=bool)
+        if not (valid1 == valid2).all():
+            raise ValueError(
+                "X and Y contain entirely missing (NaN) samples at different "
+                "positions. Please mask or remove these samples in both datasets."
+            )
 
     def _augment_data(self, X: DataArray, Y: DataArray) -> tuple[DataArray, DataArray]:
         """Optional method to augment the data before fitting."""
